@@ -23,6 +23,19 @@ def obligations(ctx):
                                  timeout=600 if ctx.quick else 3600, mem_gb=16,
                                  desc="real transform code on the real table, all 2m inputs symbolic: output j is the linear form "
                                       "sum_k c_jk x_k; c_jk vs omega^((1+4 bitrev j)k) and rounding radii; sound unit-input alarm rule"))
+    obs += layout_obs(ctx)
+    return obs
+
+
+def layout_obs(ctx):
+    """placement of the twiddle table and of the work buffers inside the object built by the real new_*_precomp(m, num_buffers)"""
+    obs = []
+    for kind in (0, 1, 2, 3):
+        for (m, nb) in ((1, 1), (2, 2), (4, 1), (4, 3), (8, 2), (16, 1), (32, 2)):
+            obs.append(core.Ob("precomp-layout/%s/m=%d/buffers=%d" % (KN[kind], m, nb), "precomp.c", "h_precomp", {"KIND": kind, "M": m, "NB": nb, "AVX": (m // 4) % 2},
+                               REIM if kind < 2 else CPLX, unwind=max(4 * m + 8, 48), flags=["--slice-formula"], family="%s precomp layout" % KN[kind], timeout=600,
+                               desc="the real builder, then every work buffer from *_precomp_get_buffer filled with arbitrary data: writes stay inside the allocation, "
+                                    "the table region the kernels read is bit-for-bit unchanged, the buffers keep what was written (pairwise disjoint)"))
     return obs
 
 
